@@ -92,12 +92,7 @@ package http1
 // sends: number of times the request was handed to c.do. reqIdempotent: the request is safe to repeat.
 //@ ghost var pendingDelta int
 //@ ghost var sends int
-//@ ghost var reqIdempotent bool
-
-// Assumed meaning of the default retry policy (its body tests !IsBodyStream and the method being one
-// of GET, HEAD, PUT, DELETE, OPTIONS, TRACE): it answers true only for requests that are safe to repeat.
-//@ extern client.DefaultRetryIf(req, resp, err) r
-//@   ensures r ==> reqIdempotent
+// (reqIdempotent and the contract of the default retry policy, client.DefaultRetryIf, are in pkg/protocol/client)
 
 //@ func HostClient.Do(c, ctx, req, resp) err
 //@   props C10
